@@ -1,6 +1,6 @@
 (* C15 — Application state and operational status follow their definition.
    Property-level theorems only (statement + exact); proofs are in proofs/AppStatusProofs.v, the model and the
-   specification Spec_C15 in model/AppStatus.v. *)
+   specification Spec_C15 in model/AppStatus.v. The model follows /repo after the fix commit 67529b2. *)
 From Sup Require Import ProcStatus AppStatus AppStatusProofs.
 Open Scope Z_scope.
 
@@ -20,7 +20,9 @@ Theorem C15_required_status : forall ps managed,
   = spec_required ps managed.
 Proof. exact required_status. Qed.
 
-(* reading note: the literal reading of "are so" for the minor failure is not what the code does *)
+(* documentation (not a finding): the literal reading of "are so" for the minor failure — a non-required process
+   STOPPED while the application is not would be a minor failure — is not what the code does; Spec_C15 keeps the
+   docstring reading *)
 Theorem C15_required_status_literal_refuted : exists ps managed,
   status_required ps (sequenced_names (update_sequences managed ps)) (update_state (displayed_states ps))
   <> spec_required_literal ps managed.
@@ -28,20 +30,20 @@ Proof. exact required_status_literal_refuted. Qed.
 
 (* formulas: evaluate() = evident denotation on the whitelisted fragment *)
 Theorem C15_formula_semantics : forall ps e,
-  wl e = true -> oracle_wf ps e = true -> fst (eval ps e) = res_of_den (den ps e).
+  wl e = true -> depth_ok e = true -> oracle_wf ps e = true -> fst (eval ps e) = res_of_den (den ps e).
 Proof. exact formula_semantics. Qed.
 
-(* formulas: every expression (any construct) without hazardous shape gets the major failure of the text *)
+(* formulas: every expression (any construct) gets the major failure of the text *)
 Theorem C15_formula_refines_spec : forall ps seqd e,
-  oracle_wf ps e = true -> has_shape hz e = false ->
+  depth_ok e = true -> oracle_wf ps e = true ->
   exists minor tr,
     update ps seqd (Some (TExprStmt e))
     = (UOk (mk_uobs (spec_app_state (displayed_states ps)) (spec_formula_major ps (TExprStmt e), minor)), tr).
 Proof. exact formula_refines_spec. Qed.
 
-(* formulas: totality under H_no_crash_shape = crash_shape_free *)
+(* formulas: totality, unconditional for the shapes; H_depth = scope of the model (recursion limit not modelled) *)
 Theorem C15_formula_total : forall ps seqd e,
-  crash_shape_free e = true -> oracle_wf ps e = true ->
+  depth_ok e = true -> oracle_wf ps e = true ->
   not_crash (fst (eval ps e)) /\
   exists minor tr,
     update ps seqd (Some (TExprStmt e))
@@ -49,29 +51,15 @@ Theorem C15_formula_total : forall ps seqd e,
     /\ (major_of (fst (eval ps e)) = false -> exists b, fst (eval ps e) = FVal (VBool b) /\ b = true).
 Proof. exact formula_total. Qed.
 
-(* F14: the unconditional totality is false on the current code *)
-Theorem C15_formula_total_refuted :
-  (exists e, oracle_wf f14_ps e = true /\
-     fst (update f14_ps [1; 2] (Some (TExprStmt e))) = UCrash AttributeError (mk_uobs ARUNNING (false, false)))
-  /\ (exists e, oracle_wf f14_ps e = true /\
-     fst (update f14_ps [1; 2] (Some (TExprStmt e))) = UCrash IndexError (mk_uobs ARUNNING (false, false)))
-  /\ (exists e, oracle_wf f14_ps e = true /\
-     fst (update f14_ps [1; 2] (Some (TExprStmt e))) = UCrash ReError (mk_uobs ARUNNING (false, false))).
-Proof. exact formula_total_refuted. Qed.
+(* the setter rejects a single statement that is not an expression, and raises nothing but
+   ApplicationStatusParseError unless ast.parse raises something it does not catch *)
+Theorem C15_setter_rejects_non_expr : forall n t,
+  (forall e, t <> TExprStmt e) -> set_formula (PBody n (Some t)) = SRejected.
+Proof. exact setter_rejects_non_expr. Qed.
 
-Theorem C15_toplevel_not_expr_refuted :
-  fst (update f14_ps [1; 2] (Some TStmtNoValue)) = UCrash AttributeError (mk_uobs ARUNNING (false, false))
-  /\ (fst (update [(1, mkPV FATAL None true false 1)] [1] (Some TStmtNone)) = UOk (mk_uobs ASTOPPED (false, true))
-      /\ spec_formula_major [(1, mkPV FATAL None true false 1)] TStmtNone = true)
-  /\ (fst (update f14_ps [1; 2] (Some (TStmtValue (EStr (Some 1) (RxMatches [1]))))) = UOk (mk_uobs ARUNNING (false, false))
-      /\ spec_formula_major f14_ps (TStmtValue (EStr (Some 1) (RxMatches [1]))) = true).
-Proof. exact toplevel_not_expr_refuted. Qed.
-
-Theorem C15_extra_args_refuted : exists e,
-  oracle_wf f14_ps e = true /\ crash_shape_free e = true /\
-  fst (update f14_ps [1; 2] (Some (TExprStmt e))) = UOk (mk_uobs ARUNNING (false, false))
-  /\ spec_formula_major f14_ps (TExprStmt e) = true.
-Proof. exact extra_args_refuted. Qed.
+Theorem C15_setter_total : forall p, (forall k, p <> PRaise k) -> (forall n, p <> PBody n None \/ n <> 1) ->
+  forall k, set_formula p <> SCrash k.
+Proof. exact setter_total. Qed.
 
 (* evaluating a formula never executes anything else *)
 Theorem C15_no_other_execution : forall a,
@@ -81,8 +69,7 @@ Theorem C15_no_other_execution : forall a,
   end.
 Proof. exact no_other_execution. Qed.
 
-(* the model satisfies Spec_C15 on every well-formed case outside the known-finding classes *)
+(* the model satisfies Spec_C15 on every well-formed case — no known-finding class is excluded *)
 Theorem C15_model_refines_spec : forall a,
-  sequences_fresh a = true -> app_wf a = true -> in_known_class a = false ->
-  case_violation (a, app_run a) = false.
+  sequences_fresh a = true -> app_wf a = true -> case_violation (a, app_run a) = false.
 Proof. exact c15_model_refines_spec. Qed.
